@@ -209,6 +209,7 @@ func (c17) Exec(seed int64, i int, tier string) Record {
 	rec.Q = append(rec.Q, LeanQ{Driver: "peggo", Line: "(q gorun " + accS + " " + SexpString(s) + ")", Expect: expect,
 		What: "real Parse vs the rule functions on the regenerated runtime of jsonpath.peg.go executed in Lean (RunGo.parseGoRules)", Oracle: true, Skip: "(q unmodelled)"})
 	rec.Tags = append(rec.Tags, "lean:gorun")
+	l31RangeStarts(seed, i, &rec) // L31: GoString.rangeStarts (Lean) vs Go's range loop / []rune — l31_rangestarts.go; a difference is a broken tie
 	return rec
 }
 
